@@ -32,7 +32,8 @@ ASSUMPTIONS = [
     'the set of layers that must keep full width is computed by an independent program-level '
     'union-find (residual sums, depthwise, time concat tied to an input or to the output)',
 ]
-REQUIRED_MONITORS = ['c08.invariants', 'c08.export_runs', 'c01.time_mask_contract']
+REQUIRED_MONITORS = ['c08.invariants', 'c08.export_runs', 'c01.time_mask_contract',
+                     'c08.features_mask_contract']
 MIN_NONTRIVIAL = {'quick': 300, 'thorough': 3000}
 EXHAUSTIVE = {'quick': False, 'thorough': False}
 EXHAUSTIVE_NOTE = 'the (K 1..12, d 1..3, r 0..K, g 0..len(gamma)) sub-space is enumerated completely'
@@ -57,11 +58,17 @@ def cases(tier, seed):
                    'family': '1d' if i % 2 == 0 else '2d', 'mask_mode': modes[i % len(modes)],
                    'fold': (i // 2) % 2 == 1, 'time_mode': ['zero', 'adv', 'pattern'][i % 3],
                    'seed': seed * 104729 + 13 + i})
+    # the repository's own PIT tests (incl. the optimiser-driven searches) under the in-situ
+    # features-mask / time-mask contracts
+    from vf import suitewl
+    cs += suitewl.cases(tier, select=('test_pit/',), slow_in_quick=('test_combined_loss_const_labels',))
     return cs
 
 
 def worker_setup(ctx):
     c01.worker_setup(ctx)   # in-situ _time_mask contract (reported under C08 here)
+    from vf.mon import insitu
+    insitu.install_features_mask(ctx)   # in-situ: binarised features masks never empty
 
 
 def check_invariants(ctx, prog, pit, what):
@@ -139,6 +146,10 @@ def check_export(ctx, prog, model, pit, summ, seed, what):
 
 
 def run_case(case, ctx):
+    if case.get('kind') == 'repo-suite':
+        from vf import suitewl
+        suitewl.run(case, ctx, ('c08.features_mask_contract', 'c01.time_mask_contract'))
+        return
     rng = random.Random(case['seed'])
     if case['kind'] == 'sweep':
         K, d, r, g = case['K'], case['d'], case['r'], case['g']
